@@ -121,12 +121,34 @@ def cfg_snapshot(c):
     dp = {k: int(v) for k, v in call(lambda: c.default_prios, what="default_prios").items()}
     p = call(lambda: c.ge_polyhedron, what="ge_polyhedron")
     poly = {
-        "matrix": np.asarray(p).tolist(),
+        "matrix": sorted(np.asarray(p).tolist()),      # a system of inequalities: the order of the rows carries no meaning
         "columns": [(v.id, oracle.bounds_tuple(v.bounds)) for v in p.variables],
         "dpv": [int(x) for x in np.asarray(p.default_prio_vector).tolist()],
     }
     build.clear_caches()
     return defaults, dp, poly
+
+
+def _canonical(c, defaults, dp, poly):
+    import hashlib
+    names = {}
+
+    def name(x):
+        if oracle.is_leaf(x) or not x.generated_id:
+            return str(x.id)
+        if x.id not in names:
+            sig = (int(x.sign), int(x.value), tuple(sorted(name(ch) for ch in x.propositions)))
+            names[x.id] = "~G" + hashlib.sha1(repr(sig).encode()).hexdigest()[:16]
+        return names[x.id]
+    for x in oracle.walk(c):
+        name(x)
+    rn = lambda i: names.get(i, str(i))
+    cols = [(rn(i), b) for i, b in poly["columns"]]
+    order = [0] + sorted(range(1, len(cols)), key=lambda j: (cols[j][0], j))
+    poly2 = {"matrix": sorted([row[j] for j in order] for row in poly["matrix"]),
+             "columns": [cols[j] for j in order],
+             "dpv": [poly["dpv"][j - 1] for j in order[1:]] if len(poly["dpv"]) == len(cols) - 1 else poly["dpv"]}
+    return (sorted((rn(k), v) for k, v in defaults.items()), sorted((rn(k), v) for k, v in dp.items()), poly2)
 
 
 def check_cfg(case, ev):
@@ -155,9 +177,19 @@ def check_cfg(case, ev):
     case2 = {"model": spec, "points": None}
     n, vals = compare_meaning(case2, c, c2, lv)
     d2, dp2, poly2 = cfg_snapshot(c2)
+    gen1 = {x.id for x in oracle.walk(c) if not oracle.is_leaf(x) and x.generated_id}
+    gen2 = {x.id for x in oracle.walk(c2) if not oracle.is_leaf(x) and x.generated_id}
+    if gen1 != gen2:
+        # Generated ids are not part of the statement (a node whose sign was given explicitly - every negated node - hashes
+        # to another id than the same node read back with its derived sign, see DESIGN section 9): both sides are compared
+        # with generated ids replaced by a name derived from the node's definition, columns and rows in canonical order.
+        ev.count("compared_modulo_generated_ids")
+        d1, dp1, poly1 = _canonical(c, d1, dp1, poly1)
+        d2, dp2, poly2 = _canonical(c2, d2, dp2, poly2)
     if d1 != d2:
         raise Violation(f"defaults differ after the round trip: {d1} vs {d2}")
     if dp1 != dp2:
+        dp1, dp2 = dict(dp1), dict(dp2)
         diff = {k: (dp1.get(k), dp2.get(k)) for k in set(dp1) | set(dp2) if dp1.get(k) != dp2.get(k)}
         raise Violation(f"default_prios differ after the round trip: {diff}")
     if poly1 != poly2:
@@ -174,13 +206,13 @@ def check_cfg(case, ev):
     nodes = oracle.spec_nodes(spec)
     deep_default = any(n_.get("default") for r in spec["c"] for n_ in oracle.spec_nodes(r)[1:] if n_["k"] in ("cAny", "cXor"))
     cl = ["kind:" + k for k in sorted({n_["k"] for n_ in nodes} - {"leaf", "ref"})]
-    if any(v == -2 for v in dp1.values()):
+    if any(v == -2 for v in dict(dp1).values()):
         cl.append("has_non_default_branch")
     if deep_default:
         cl.append("default_below_top_level")
     if any(n_.get("default") and n_["default"][0] not in [c_["id"] for c_ in n_["c"] if c_["k"] == "leaf"] for n_ in nodes if n_["k"] in ("cAny", "cXor")):
         cl.append("default_not_among_children")
-    ev.case(case, deep_default or any(v == -2 for v in dp1.values()), cl)
+    ev.case(case, deep_default or any(v == -2 for v in dict(dp1).values()), cl)
 
 
 @st.composite
